@@ -142,3 +142,7 @@ Theorem C09_sub_descent_direction :
     (mval inp (vsub (i_xc inp) (i_x inp)) < 0 -> dot (i_g inp) (vsub (o_xbar o) (i_x inp)) < 0).
 Proof. exact sub_descent_direction_Bpsd. Qed.
 Print Assumptions C09_sub_descent_direction.
+
+(* Non-vacuity: the concrete instances of Proofs/SubspaceProofs.v (module Ex: n = 3, one pair; wide box alpha* = 1, truncating
+   box alpha* = 7/20, no free variable) to which the theorems above are applied there by computation. *)
+Example C09_nonvacuous := (conj SubspaceProofs.Ex.sub_free_set_ex (conj SubspaceProofs.Ex.sub_fixed_ex SubspaceProofs.Ex.sub_fixed_all_ex)).
